@@ -160,7 +160,7 @@ class Parser(BaseParser):
 
             to_scan, node_cache = scan(i, to_scan)
 
-            if token == '\n':
+            if token == '\n' or token == 10:   # iterating over bytes yields ints
                 text_line += 1
                 text_column = 1
             else:
